@@ -307,6 +307,20 @@ def datasets(ctx, label, count, kinds=None):
     return out
 
 
+def large_cases(ctx, label, deep):
+    """30000 integer-valued points x orderings of [Uniform, Gaussian, Gamma]: no family fits (all KS p-values are
+    exactly 0.0) but the KS distances differ, and in most orderings the first candidate is not the minimiser."""
+    from copulas.univariate import GammaUnivariate, GaussianUnivariate, UniformUnivariate
+    U, G, Ga = (Entry('cls:' + c.__name__, c) for c in (UniformUnivariate, GaussianUnivariate, GammaUnivariate))
+    nr = ctx.nprng(label)
+    sets = [(f'{label}:ratings30000', nr.randint(0, 4, 30000).astype(float))]
+    orders = [[U, G, Ga], [Ga, U, G], [G, Ga, U]]
+    if deep:
+        sets.append((f'{label}:counts30000', nr.poisson(1.5, 30000).astype(float)))
+        orders += [[U, Ga, G], [Ga, G, U], [G, U, Ga], [U, G], [Ga, G]]
+    return [(did, X, L) for did, X in sets for L in orders]
+
+
 def candidate_lists(rng, entries, count):
     real = [e for e in entries if e.type.startswith('copulas.') and 'missing' not in e.key and 'no-dot' not in e.key]
     fast = [e for e in real if 'StudentT' not in e.key and 'Beta' not in e.key]
@@ -570,6 +584,14 @@ def tie_select(ctx, lean, outs):
             if d is not None and bad is None:
                 bad = dict(d, dataset=did, data=X.tolist()[:8], candidates=[e.key for e in L],
                            ks=['raised' if o is None else o for o in outcomes], real=real)
+    for did, X, L in large_cases(ctx, 'SL', ctx.scale > 1)[:2 if ctx.scale == 1 else None]:
+        outcomes = [outs.get(did, e, X) for e in L]
+        real = real_univariate_fit([e.obj for e in L], X)
+        d = check_selection(lean, L, outcomes, real)
+        ctx.case((did, tuple(e.key for e in L)), nontrivial=True)
+        ctx.count('select:data=large-badly-fitting')
+        if d is not None and bad is None:
+            bad = dict(d, dataset=did, data=X.tolist()[:8], candidates=[e.key for e in L], ks=outcomes, real=real)
     if nondet:
         ctx.notes.append(f'{nondet} selection cases skipped: candidate outcomes were not reproducible')
     ctx.ob('corr:select_univariate', bad is None, 'tie', bad or 'ok')
@@ -588,6 +610,9 @@ class Refs:
         self.objs = {}
 
     def tok(self, entry):
+        for t, e in self.objs.items():      # one token per python object: tokens are compared by identity afterwards
+            if e.obj is entry.obj:
+                return t
         t = 'd%d' % len(self.objs)
         self.objs[t] = entry
         return t
@@ -985,6 +1010,16 @@ def search(ctx, deep):
                 v = optimality_violation(L, X, outcomes)
                 if v is not None:
                     bad('Univariate.fit', {'dataset': did, 'X': X.tolist(), 'candidates': [e.key for e in L]}, *v)
+        # large badly fitting data: every KS p-value underflows to exactly 0.0, the statistics still differ
+        for did, X, L in large_cases(ctx, 'QL', deep):
+            outcomes = [outs.get(did, e, X) for e in L]
+            checked += 1
+            v = optimality_violation(L, X, outcomes)
+            if v is not None:
+                vals, counts = np.unique(X, return_counts=True)       # compact: the data up to order
+                bad('Univariate.fit', {'dataset': did, 'X_value_counts': [[float(a), int(b)] for a, b in zip(vals, counts)],
+                                       'candidates': [e.key for e in L]}, *v)
+
     def part2():
         nonlocal checked
         # ---- 2. filters and explicit candidates
@@ -1030,39 +1065,83 @@ def search(ctx, deep):
                         'GaussianMultivariate.fit:raises')
                     continue
                 for c, u in zip(gm.columns, gm.univariates):
-                    if kind == 'default':
-                        entry = Entry('cls:Univariate', Univariate)
-                    elif isinstance(cfg, dict):
-                        entry = Entry('configured', cfg[c]) if c in cfg else Entry('cls:Univariate', Univariate)
-                    else:
-                        entry = Entry('configured', cfg)
-                    got = u.to_dict()['type']
-                    gaussian = fqn(GaussianUnivariate)
-                    inp_c = dict(inp, column=str(c), configured=entry.key if entry.key != 'configured' else repr(entry.obj)[:80])
-                    inst, fit, selinfo = real_column_expectation(outs, did, col_tok(c), entry, df[c])
-                    is_default = kind == 'default' or (isinstance(cfg, dict) and c not in cfg)
-                    cls_key = 'GaussianMultivariate.fit:default-distribution' if is_default else 'GaussianMultivariate.fit:column-type'
-                    if fit is None:            # the configured distribution cannot be fitted => Gaussian
-                        if got != gaussian:
-                            bad('GaussianMultivariate.fit', inp_c, got, 'column modelled by GaussianUnivariate (fallback)',
-                                'GaussianMultivariate.fit:fallback-not-gaussian')
-                    elif selinfo is None:
-                        if got != fit:
-                            bad('GaussianMultivariate.fit', inp_c, got, f'column modelled by the configured distribution {fit}', cls_key)
-                    else:
-                        cands, outcomes = selinfo
-                        mine = [o for e, o in zip(cands, outcomes) if e.type == got and o is not None and o == o]
-                        if not mine or any(lt(o, min(mine)) for o in outcomes):
-                            bad('GaussianMultivariate.fit', inp_c, {'type': got, 'ks': {e.type: o for e, o in zip(cands, outcomes)}},
-                                'column modelled by a KS-minimiser among the candidates of the '
-                                + ('default distribution Univariate' if is_default else 'configured Univariate'), cls_key)
-    for part in (part1, part2, part3):
+                    v = column_violation(outs, did, c, cfg if kind != 'default' else None, kind == 'default', df[c],
+                                         u.to_dict()['type'])
+                    if v is not None:
+                        bad('GaussianMultivariate.fit', dict(inp, column=str(c), configured=v[0]), *v[1:])
+
+    def part4():
+        nonlocal checked
+        # ---- 4. fit histories: re-fits of one object and objects sharing one configuration dict
+        refs = history_refs()
+        for k in range(16 if deep else 5):
+            frames = history_frames(ctx, 'R', k, rng)
+            columns = list(frames[0][1].columns)
+            kind, cfg, toks, R = history_config(rng, refs, columns)
+            reference = dict(cfg) if isinstance(cfg, dict) else cfg       # what the user asked for
+            steps = history_steps(rng, len(frames))
+            objs = {m: GaussianMultivariate(distribution=cfg) for m in sorted({m for m, _ in steps})}
+            for idx, (m, j) in enumerate(steps):
+                did, df = frames[j]
+                checked += 1
+                inp = {'configuration': {str(kk): (v if isinstance(v, str) else repr(v)[:60]) for kk, v in reference.items()}
+                       if isinstance(reference, dict) else repr(reference)[:80],
+                       'history': [f'model {mm} (same configuration object) .fit({frames[jj][0]})' for mm, jj in steps[:idx + 1]],
+                       'frames': {frames[jj][0]: frames[jj][1].to_dict('list') for _, jj in steps[:idx + 1]}}
+                try:
+                    objs[m].fit(df)
+                except Exception as e:  # noqa
+                    bad('GaussianMultivariate.fit', inp, 'raised ' + type(e).__name__ + ': ' + str(e)[:120],
+                        'the fit succeeds (columns whose distribution cannot be fitted are modelled by a Gaussian)',
+                        'GaussianMultivariate.fit:raises')
+                    continue
+                now = objs[m].distribution
+                changed = (list(now.items()) != list(reference.items()) or any(now[kk] is not reference[kk] for kk in reference)) \
+                    if isinstance(reference, dict) and isinstance(now, dict) else now is not reference
+                for c, u in zip(objs[m].columns, objs[m].univariates):
+                    v = column_violation(outs, did, c, reference, False, df[c], u.to_dict()['type'])
+                    if v is not None:
+                        obs, req, cls = v[1:]
+                        if changed:
+                            cls = 'GaussianMultivariate.fit:configured-distribution-lost-after-fallback'
+                            obs = {'observed': obs, 'distribution attribute now': repr(now)[:300]}
+                            req += ' — the configuration the user passed, not one rewritten by an earlier fallback'
+                        bad('GaussianMultivariate.fit', dict(inp, column=str(c), configured=v[0]), obs, req, cls)
+    for part in (part1, part2, part3, part4):
         try:
             part()
         except Exception:
             import traceback
             ctx.notes.append('search %s crashed: %s' % (part.__name__, traceback.format_exc()[-300:]))
     ctx.support = {'oracle_checks': checked, 'failures': found, 'deep': deep}
+
+
+def column_violation(outs, did, c, cfg, ctor_default, series, got):
+    """the per-column clause of the property on one fitted column of the real model:
+    -> None | (configured, observed, required, class key)"""
+    from copulas.univariate import GaussianUnivariate, Univariate
+    is_default = ctor_default or (isinstance(cfg, dict) and c not in cfg)
+    if is_default:
+        entry = Entry('cls:Univariate', Univariate)
+    else:
+        entry = Entry('configured', cfg[c] if isinstance(cfg, dict) else cfg)
+    configured = entry.key if entry.key != 'configured' else (entry.obj if isinstance(entry.obj, str) else repr(entry.obj)[:80])
+    inst, fit, selinfo = real_column_expectation(outs, did, col_tok(c), entry, series)
+    cls_key = 'GaussianMultivariate.fit:default-distribution' if is_default else 'GaussianMultivariate.fit:column-type'
+    if fit is None:            # the configured distribution cannot be fitted => Gaussian
+        if got != fqn(GaussianUnivariate):
+            return configured, got, 'column modelled by GaussianUnivariate (fallback)', 'GaussianMultivariate.fit:fallback-not-gaussian'
+    elif selinfo is None:
+        if got != fit:
+            return configured, got, f'column modelled by the configured distribution {fit}', cls_key
+    else:
+        cands, outcomes = selinfo
+        mine = [o for e, o in zip(cands, outcomes) if e.type == got and o is not None and o == o]
+        if not mine or any(lt(o, min(mine)) for o in outcomes):
+            return (configured, {'type': got, 'ks': {e.type: o for e, o in zip(cands, outcomes)}},
+                    'column modelled by a KS-minimiser among the candidates of the '
+                    + ('default distribution Univariate' if is_default else 'configured Univariate'), cls_key)
+    return None
 
 
 def real_column_expectation(outs, did, col, entry, series):
@@ -1088,6 +1167,8 @@ def real_column_expectation(outs, did, col, entry, series):
 
 def replay(ctx, payload):
     inp = payload.get('input') or {}
+    if 'X_value_counts' in inp:
+        inp = dict(inp, X=np.repeat([a for a, _ in inp['X_value_counts']], [b for _, b in inp['X_value_counts']]).tolist())
     if str(payload.get('class', '')).startswith('Univariate.fit:') and 'X' in inp and 'candidates' in inp:
         by_key = {e.key: e for e in all_entries() + [Entry('cls:' + c.__name__, c) for c in real_families()]}
         if all(k in by_key for k in inp['candidates']):
